@@ -135,6 +135,16 @@ def _replace_stmt(tree, old):
                         return
 
 
+import signal
+
+
+def _alarm(signum, frame):
+    raise TimeoutError()
+
+
+signal.signal(signal.SIGALRM, _alarm)
+
+
 def run_one(args):
     label, rel, new_src, base = args
     srcs = dict(base)
@@ -151,8 +161,17 @@ def run_one(args):
             from sa.rules import common
             common._cache.clear()
             mod = importlib.import_module(f'sa.rules.{pid.lower()}')
+            del engine.PYERRORS[:]
+            signal.alarm(180)
             mod.check(rep, model, 'quick')
+            signal.alarm(0)
+            engine.report_pyerrors(rep)
+        except TimeoutError:
+            fired[pid] = 'engine:TIMEOUT'
+            print('TIMEOUT', label, pid, flush=True)
+            continue
         except Exception as e:
+            signal.alarm(0)
             fired[pid] = f'engine:{type(e).__name__}'
             continue
         v = sorted({i['rule'] for i in rep.instances if i['status'] == 'violated'})
